@@ -10,6 +10,9 @@ package prod
 import (
 	"crypto/elliptic"
 	"crypto/sha256"
+	"crypto/sha3"
+	"crypto/sha512"
+	"hash"
 	"fmt"
 	"math/big"
 	"sort"
@@ -395,10 +398,50 @@ type ecDesc[P curves.Point[P, B, S], B algebra.PrimeFieldElement[B], S algebra.P
 	g     *groupDesc[P, S]
 	curve ecdsa.Curve[P, B, S]
 	std   elliptic.Curve
+	hname string // "" = sha256
+	hf    func() hash.Hash
+}
+
+// the message hashes the ECDSA protocols are run with: as wide as the group order, and wider (FIPS 186: the leftmost bits count)
+var ecHashes = []struct {
+	name string
+	f    func() hash.Hash
+}{{"sha256", sha256.New}, {"sha512", sha512.New}, {"sha3-256", func() hash.Hash { return sha3.New256() }}, {"sha384", sha512.New384}}
+
+// withHash returns the descriptor with the hash selected by the case name (deterministic, rotates with the seed).
+func (d *ecDesc[P, B, S]) withHash(caseName string) *ecDesc[P, B, S] {
+	h := int(seed)
+	for _, c := range []byte(caseName) {
+		h += int(c)
+	}
+	c := *d
+	c.hname, c.hf = ecHashes[h%len(ecHashes)].name, ecHashes[h%len(ecHashes)].f
+	return &c
+}
+
+func (d *ecDesc[P, B, S]) hashName() string {
+	if d.hf == nil {
+		return "sha256"
+	}
+	return d.hname
+}
+
+func (d *ecDesc[P, B, S]) digest(m []byte) []byte {
+	f := d.hf
+	if f == nil {
+		f = sha256.New
+	}
+	h := f()
+	h.Write(m)
+	return h.Sum(nil)
 }
 
 func (d *ecDesc[P, B, S]) suite() *ecdsa.Suite[P, B, S] {
-	s, err := ecdsa.NewSuite(d.curve, sha256.New)
+	f := d.hf
+	if f == nil {
+		f = sha256.New
+	}
+	s, err := ecdsa.NewSuite(d.curve, f)
 	if err != nil {
 		panic(err)
 	}
@@ -419,23 +462,24 @@ func ecdsaRelations[P curves.Point[P, B, S], B algebra.PrimeFieldElement[B], S a
 		panic(err)
 	}
 	other := otherMessage(msg)
-	dg, dgo := sha256.Sum256(msg), sha256.Sum256(other)
+	dg, dgo := d.digest(msg), d.digest(other)
+	ev["hash"] = d.hashName()
 	r, s := big2(sig.R()), big2(sig.S())
 	Q := d.g.aff(pkv)
 	ev["verify_lib"] = vf.Verify(sig, pk, msg) == nil
 	ev["verify_other_lib"] = vf.Verify(sig, pk, other) == nil
-	ev["verify_indep"] = m.ecdsaVerify(Q, dg[:], r, s)
-	ev["verify_other_indep"] = m.ecdsaVerify(Q, dgo[:], r, s)
+	ev["verify_indep"] = m.ecdsaVerify(Q, dg, r, s)
+	ev["verify_other_indep"] = m.ecdsaVerify(Q, dgo, r, s)
 	ev["indep"] = "math/big SEC1"
 	ev["verify_std"] = true
 	if d.std != nil {
-		ev["verify_std"] = stdecdsa.Verify(&stdecdsa.PublicKey{Curve: d.std, X: Q.x, Y: Q.y}, dg[:], r, s) &&
-			!stdecdsa.Verify(&stdecdsa.PublicKey{Curve: d.std, X: Q.x, Y: Q.y}, dgo[:], r, s)
+		ev["verify_std"] = stdecdsa.Verify(&stdecdsa.PublicKey{Curve: d.std, X: Q.x, Y: Q.y}, dg, r, s) &&
+			!stdecdsa.Verify(&stdecdsa.PublicKey{Curve: d.std, X: Q.x, Y: Q.y}, dgo, r, s)
 		ev["indep"] = "math/big SEC1 + crypto/ecdsa"
 	}
 	rec := false
 	if v := sig.V(); v != nil {
-		if R, ok := m.ecdsaRecover(dg[:], r, s, *v); ok {
+		if R, ok := m.ecdsaRecover(dg, r, s, *v); ok {
 			rec = !R.inf && R.x.Cmp(Q.x) == 0 && R.y.Cmp(Q.y) == 0
 		}
 	}
